@@ -443,6 +443,12 @@ def fan_job(job):
                         if o.kind == "ok":
                             check_frames(o, F, bad, what)
                             bad("oversize-data-accepted", "%s accepted: %s" % (what, o.brief()))
+                        elif o.exc_name not in ("FrameTooLargeError", "FlowControlError") or o.raw:
+                            # refused, but not cleanly: a backstop fired after the frame had been queued
+                            if o.raw:
+                                check_frames(o, F, bad, what + " (raised %s)" % o.exc_name)
+                            bad("oversize-data-not-refused-cleanly", "%s raised %s and left %d bytes in the output" % (what, o.exc_name, len(o.raw)),
+                                exc=o.exc_name)
     elif fam == "prio":
         if not client:
             return {"evaluations": 0, "outcomes": {}, "nontrivial": 0, "violations": [], "samples": []}
